@@ -187,11 +187,32 @@ def parseCaps : String → Option Caps
   | "2n" => some { srvUtf8 := true, strict := true, msgUtf8 := false }
   | _ => none
 
+/-- `X<token>/<k>,…` / `Y…` (`X-`: none) -/
+def parseRefusals (tok : String) : List (Nat × Nat) :=
+  let body := String.ofList (tok.toList.drop 1)
+  if body == "-" then [] else (body.splitOn ",").filterMap (fun e =>
+    match e.splitOn "/" with
+    | [t, k] => do
+      let t ← parseTok t
+      let k ← k.toNat?
+      pure (t, k)
+    | _ => none)
+
+def sizePairs : List Char → List (Nat × Char)
+  | d :: k :: rest => (d.toNat - '0'.toNat, k) :: sizePairs rest
+  | _ => []
+
 def handle : List String → String
   | ["remote", utf8, txs] =>
-    match parseCaps utf8, (txs.splitOn ";").mapM parseTx with
+    -- `<caps>[/<dom><kind>…]`: SIZE announcement per recipient domain, kind `s` = smaller than the message
+    -- (enforced by the next hop), `e` exactly its size, `b` bigger, `0` no fixed limit
+    let (capTok, sizeTok) := match utf8.splitOn "/" with
+      | [c, z] => (c, z)
+      | _ => (utf8, "")
+    let small : List Nat := (sizePairs sizeTok.toList).filterMap (fun p => if p.2 == 's' then some p.1 else none)
+    match parseCaps capTok, (txs.splitOn ";").mapM parseTx with
     | some caps, some txs =>
-      let obs := runHistoryCaps caps [] (txs.map (·.1))
+      let obs := runHistorySize caps (fun ck => small.contains (ck / 16)) [] (txs.map (·.1))
       " | ".intercalate ((obs.zip (txs.map (·.2))).map (fun p => showObs p.1 p.2))
     | _, _ => "bad-op"
   | ["lmtp", acc, sts, _spec] =>
@@ -245,6 +266,22 @@ def handle : List String → String
     -- the table of the nested delivery: what its AddRcpt calls recorded
     let origI : List (Nat × Nat) := pipeTable ((paths.filter routed).map (fun p => (p.2, innerEffs p.2)))
     let showSt (s : Nat × Bool) : String := tokName s.1 ++ "=" ++ okStr s.2
+    -- refusals at AddRcpt time: `X…` by the per-recipient target, `Y…` by a second target of every block
+    let xTok := (rest.drop 1).find? (·.startsWith "X")
+    let yTok := (rest.drop 1).find? (·.startsWith "Y")
+    let wTok := (rest.drop 1).find? (·.startsWith "W")
+    let wKeys : List Nat := match wTok with
+      | some t => (((String.ofList (t.toList.drop 1)).splitOn ",").filterMap parseTok).map lookupKey
+      | none => []
+    let isW (a : Nat) : Bool := wKeys.contains (lookupKey a)
+    if xTok.isSome || yTok.isSome || wTok.isSome then
+      if nest.isSome || outerPlan.tgt != "p" || (outerPlan.stage != "-" && yTok.isSome) then "bad-op" else
+      let (st, oks) := pipeAddCalls yTok.isSome (parseRefusals (xTok.getD "X-")) (parseRefusals (yTok.getD "Y-"))
+        (fun c => place == "r" && isW c) (fun e => place != "r" && isW e) {} rs
+      let sts := if !oks.any id then [] else
+        if outerPlan.stage != "-" then st.generated else st.statuses (fun e => !failIds.contains e)
+      "add:" ++ ",".intercalate (oks.map okStr) ++ " status:" ++ ",".intercalate (sortStr (sts.map showSt))
+    else
     let sts :=
       if outerPlan.stage != "-" then
         -- setStatusAll: every entry of every delivery's `recipients`, as supplied, untranslated
